@@ -307,7 +307,7 @@ def corpus():
 
 
 def check(run: Run, lean: dict) -> int:
-    n = 150 if run.tier == "quick" else 4000
+    n = run.budget(150, 4000)
     run.extra["rule"] = (
         "forests reached by random Legal edit histories (5-15 calls) over 12 seed documents; for every node of every tree: "
         "children, parent, index, len, item access (incl. negative), first/last child, following/preceding sibling(s), "
